@@ -2,6 +2,7 @@ import Pun.Model.PBox
 import Pun.Lemmas.Frechet
 import Mathlib.Data.List.Sort
 import Mathlib.Algebra.Order.Field.Rat
+import Mathlib.Algebra.Order.Field.Basic
 set_option linter.unusedSimpArgs false
 set_option linter.unusedVariables false
 namespace Pun.PBox
@@ -58,6 +59,37 @@ theorem minL_spec (d : Rat) (l : List Rat) (hne : l ≠ []) :
   cases l with
   | nil => exact absurd rfl hne
   | cons x xs => exact foldl_min_spec x xs
+
+/-- a p-box all of whose values lie in a set on which `1/x` is antitone (all positive, or all negative)
+does not straddle zero, so `reciprocal` passes its guard -/
+theorem straddlesZero_false_of_anti (P : PB) (p : Rat → Prop)
+    (hpl : ∀ x ∈ P.left, p x) (hpr : ∀ x ∈ P.right, p x)
+    (hg : ∀ x y : Rat, p x → p y → x ≤ y → 1 / y ≤ 1 / x) : straddlesZero P = false := by
+  rw [Bool.eq_false_iff]
+  intro hs
+  unfold straddlesZero at hs
+  simp only [Bool.and_eq_true, decide_eq_true_eq] at hs
+  obtain ⟨h1, h2⟩ := hs
+  have hl : P.left ≠ [] := by
+    intro e; rw [e] at h1; simp [minL] at h1
+  have hr : P.right ≠ [] := by
+    intro e; rw [e] at h2; simp [maxL] at h2
+  obtain ⟨m1, _⟩ := minL_spec 0 _ hl
+  obtain ⟨m2, _⟩ := maxL_spec 0 _ hr
+  have h3 := hg _ _ (hpl _ m1) (hpr _ m2) (le_of_lt (lt_trans h1 h2))
+  have a : 0 < 1 / maxL 0 P.right := one_div_pos.mpr h2
+  have b : 1 / minL 0 P.left < 0 := one_div_neg.mpr h1
+  exact absurd (lt_of_lt_of_le a h3) (not_lt.mpr (le_of_lt b))
+
+theorem straddlesZero_false_pos (P : PB) (hl : ∀ x ∈ P.left, 0 < x) (hr : ∀ x ∈ P.right, 0 < x) :
+    straddlesZero P = false :=
+  straddlesZero_false_of_anti P (fun x => 0 < x) hl hr
+    (fun _ _ hx _ hxy => one_div_le_one_div_of_le hx hxy)
+
+theorem straddlesZero_false_neg (P : PB) (hl : ∀ x ∈ P.left, x < 0) (hr : ∀ x ∈ P.right, x < 0) :
+    straddlesZero P = false :=
+  straddlesZero_false_of_anti P (fun x => x < 0) hl hr
+    (fun _ _ hx hy hxy => (one_div_le_one_div_of_neg hy hx).mpr hxy)
 
 /-- entry `j` of the anti-diagonal list used for `left[i]` -/
 theorem antidiag_getElem? (op : Rat → Rat → Rat) (a b : List Rat) (i j : Nat)
